@@ -49,8 +49,13 @@ CLAIM = dict(
     "source_call_order (the sequence of private stage calls of __call__ and their chaining, extracted from the AST on every "
     "check, equals the documented order) with stage_order_general / stage_order_from_source, the instrumented tie and the "
     "oracle. result_meta's conclusions hold for both result classes whatever the kind (its antecedents only select the "
-    "relevant half). Integer promotion is proved for UNSIGNED types only (uint8 / uint16 are what is exercised); signed / "
-    "int64 / bool images and baseline lists of mixed dtype are not covered. OBSERVED ONLY (oracle): TVD / compare_images / cv2 internals, 0-preservation of TVD, update(mask=...) (unused by this class).",
+    "relevant half). Promotion per dtype: the rules img_as(float), the constructor, update and __call__ apply to uint8..64 / int8..64 / "
+    "float16..64 / bool are TABULATED from the implementation each run (DarsiaGen.Promotion) and "
+    "promotion_rules_from_implementation states that all four agree with the model's rule of the dtype kind (unsigned: v/max; "
+    "signed: max(v/max, -1); bool / float: unchanged); baseline_zero_every_dtype, diff_parts_every_dtype, promoted_range are "
+    "stated on that rule (near-definitional given the rule); diff_no_wrap remains the exact statement for unsigned types. Tied "
+    "by dtype_tie: all 144 (baseline dtype, probe dtype) pairs, values over the whole integer range, against the model's "
+    "exact rational difference (1e-12). Baseline LISTS of mixed dtype are not covered. OBSERVED ONLY (oracle): TVD / compare_images / cv2 internals, 0-preservation of TVD, update(mask=...) (unused by this class).",
     note="stage objects are parameters of the model; library numerics are observed only",
     technique="Lean 4 proof (list induction, state-machine and buffer invariants, case analysis over configurations, ordered-field "
     "arithmetic) + differential correspondence with instrumented stages + exact-rational numeric ties + property oracle",
@@ -113,11 +118,133 @@ def show_stage(spec):
     return spec[0] + " " + " ".join(fmt(x) for x in spec[1:])
 
 
+ALL_DTYPES = ["uint8", "uint16", "uint32", "uint64", "int8", "int16", "int32", "int64", "float16", "float32", "float64", "bool"]
+KIND_RULE = {"u": "unsigned", "i": "signedClip", "f": "asIs", "b": "asIs"}  # the model's DKind.rule
+
+
+def rand_data(r, dtype, full, extremes=0.3):
+    """values over the WHOLE range of an integer dtype (python integers, so 64-bit types are covered), booleans, or dyadic
+    floats (multiples of 1/4 in [-2, 4]: exact in float16/32/64, so no tolerance has to absorb rounding of the inputs)"""
+    t = np.dtype(dtype)
+    n = int(np.prod(full))
+    if t.kind in "ui":
+        ii = np.iinfo(t)
+        lo, hi = int(ii.min), int(ii.max)
+        a = r.randint(0, 2 ** 32, size=n, dtype=np.int64)
+        b = r.randint(0, 2 ** 32, size=n, dtype=np.int64)
+        vals = [lo + (((int(x) << 32) | int(y)) % (hi - lo + 1)) for x, y in zip(a, b)]
+        if r.rand() < extremes and n:
+            vals[0], vals[-1] = lo, hi
+            if n > 2:
+                vals[1] = lo + 1
+        return np.array(vals, dtype=t).reshape(full)
+    if t.kind == "b":
+        return r.rand(*full) < 0.5
+    return (r.randint(-8, 17, size=full) / 4.0).astype(t)
+
+
+def promoted_exact(a):
+    """the model's promotion (DKind.rule / PRule.apply) of every entry, as exact fractions"""
+    from fractions import Fraction
+
+    t = a.dtype
+    flat = a.ravel().tolist()
+    if t.kind == "u":
+        m = int(np.iinfo(t).max)
+        return [Fraction(int(v), m) for v in flat]
+    if t.kind == "i":
+        m = int(np.iinfo(t).max)
+        return [max(Fraction(int(v), m), Fraction(-1)) for v in flat]
+    if t.kind == "b":
+        return [Fraction(int(v)) for v in flat]
+    return [Fraction(float(v)) for v in flat]
+
+
+def promoted(a):
+    return np.array([float(x) for x in promoted_exact(a)], dtype=np.float64).reshape(a.shape)
+
+
+def classify_rule(a, out):
+    """which rule maps the sample values `a` to the observed `out` (None: none of them)"""
+    from fractions import Fraction
+
+    t = a.dtype
+    out = np.asarray(out)
+    if out.shape != a.shape or out.dtype.kind != "f":
+        return "asIs" if (out.shape == a.shape and np.array_equal(out, a) and t.kind in "uib") else None
+    obs = [Fraction(float(v)) for v in out.ravel().tolist()]
+    vals = a.ravel().tolist()
+    cands = {"asIs": [Fraction(float(v)) if t.kind == "f" else Fraction(int(v)) for v in vals]}
+    if t.kind in "ui":
+        m = int(np.iinfo(t).max)
+        cands["unsigned" if t.kind == "u" else "signedClip"] = promoted_exact(a)
+        cands["signedClip" if t.kind == "u" else "unsigned"] = [max(Fraction(int(v), m), Fraction(-1)) if t.kind == "u" else Fraction(int(v), m) for v in vals]
+    order = [KIND_RULE[t.kind]] + [k for k in cands if k != KIND_RULE[t.kind]]
+    for k in order:
+        if k in cands and all(abs(o - e) <= Fraction(1, 10 ** 15) * max(1, abs(e)) for o, e in zip(obs, cands[k])):
+            return k
+    return None
+
+
+def tabulate_promotion(ctx, d):
+    """G1: for every dtype, what img_as(float), the constructor, update(base=...) and __call__ do to sample pixel values
+    (both ends of the range, values around 0, a third of the maximum)"""
+    rows = []
+    for name in ALL_DTYPES:
+        t = np.dtype(name)
+        if t.kind in "ui":
+            ii = np.iinfo(t)
+            vals = sorted({int(ii.min), int(ii.min) + 1, 0, 1, 2, int(ii.max) // 3, int(ii.max) - 1, int(ii.max)} | ({-1, -2, int(ii.min) // 3} if t.kind == "i" else set()))
+        elif t.kind == "b":
+            vals = [False, True, True, False]
+        else:
+            vals = [-1.5, 0.0, 0.25, 1.0, 3.0]
+        a = np.array(vals, dtype=t).reshape(1, -1)
+        mk = lambda x: d.ScalarImage(x.copy(), dimensions=[1.0, 1.0])
+        plain = {"diff option": "plain"}
+
+        def upd():
+            an = d.ConcentrationAnalysis(mk(np.zeros(a.shape)), **plain)
+            an.update(base=mk(a))
+            return an.base.img
+
+        obs = {
+            "imgAs": call(lambda: mk(a).img_as(float).img),
+            "ctor": call(lambda: d.ConcentrationAnalysis(mk(a), **plain).base.img),
+            "update": call(upd),
+            "call": call(lambda: d.ConcentrationAnalysis(None, **plain)(mk(a)).img),
+        }
+        row = dict(name=name, kind=t.kind, bits=8 * t.itemsize)
+        for k, o in obs.items():
+            rule = None if isinstance(o, Raised) else classify_rule(a, o)
+            if rule is None:
+                ctx.mark("TIE-BROKEN", {"G1": f"promotion of {name} by {k} matches none of the rules unsigned / signedClip / asIs",
+                                        "observed": repr(o.exc) if isinstance(o, Raised) else np.asarray(o).ravel().tolist()[:8], "samples": a.ravel().tolist()[:8]})
+                rule = "asIs" if t.kind in "ui" else "unsigned"  # deliberately not the rule of the kind: the theorem must not hold
+            row[k] = rule
+        rows.append(row)
+    return rows
+
+
+def emit_promotion(rows):
+    L = ["import DarsiaModel.Pipeline", "namespace Darsia.Gen", "open Darsia Darsia.Pipeline", "",
+         "/-- per dtype: rule observed for `Image.img_as(float)`, for the baseline stored by the constructor and by",
+         "`update(base=…)`, and for the probe in `ConcentrationAnalysis.__call__` (sample values through the implementation) -/",
+         "def promotionTable : List DTypeRow := ["]
+    L.append(",\n".join(
+        f'  {{ name := "{r["name"]}", kind := .{r["kind"]}, bits := {r["bits"]}, imgAs := .{r["imgAs"]}, ctor := .{r["ctor"]}, '
+        f'update := .{r["update"]}, call := .{r["call"]} }}' for r in rows) + "]")
+    L += ["", "end Darsia.Gen"]
+    return "\n".join(L) + "\n"
+
+
 def rand_image(ctx, d, kind, shape, dtype=float, dyadic=True, lo=0, hi=16):
     r = np.random.RandomState(ctx.rng.randrange(2 ** 31))
     full = shape + ({"ScalarImage": (), "OpticalImage": (3,), "Image": (2,)}[kind])
-    if dtype in (np.uint8, np.uint16):
-        data = r.randint(0, 256 if dtype == np.uint8 else 65536, size=full).astype(dtype)
+    if np.dtype(dtype).kind in "uib":
+        data = rand_data(r, dtype, full)
+    elif np.dtype(dtype) == np.float16:
+        data = rand_data(r, dtype, full)  # dyadic: float16 arithmetic on them is exact
     elif dyadic:
         data = (r.randint(lo, hi + 1, size=full) / 4.0).astype(dtype)
     else:
@@ -293,11 +420,7 @@ def correspondence(ctx, d):
 def to_float(img):
     """the documented promotion of integer images (skimage img_as_float)"""
     a = img.img
-    if a.dtype == np.uint8:
-        return a.astype(np.float64) / 255.0
-    if a.dtype == np.uint16:
-        return a.astype(np.float64) / 65535.0
-    return a
+    return promoted(a) if a.dtype.kind in "uib" else a
 
 
 def ref_diff(opt, p, b):
@@ -341,6 +464,7 @@ def zero_stock_stages(ctx, d, kind):
 
 def oracle(ctx, d):
     dtypes = [np.float64, np.float32, np.uint8, np.uint16]
+    wide = dtypes + [np.dtype(n).type for n in ALL_DTYPES]  # random blocks: every dtype (the four common ones twice as often)
     # --- O1 baseline -> 0, O5 metadata / kind --------------------------------------------------------
     for opt in OPTS:
         for dtype in dtypes:
@@ -519,7 +643,10 @@ def oracle(ctx, d):
     for rep in range(ctx.pick(120, 1200)):
         kind = ctx.rng.choice(["ScalarImage", "OpticalImage", "Image"])
         shape = (ctx.rng.randint(2, 7), ctx.rng.randint(2, 7))  # (TVD of skimage needs more than one row / column)
-        dt0, dt1 = ctx.rng.choice(dtypes), ctx.rng.choice(dtypes)
+        # float16 is left to dtype_tie / the stage-free block: the stock TVD restoration (skimage / scipy) rejects float16 input
+        # with TypeError('No matching signature found') - img_as(float) keeps float16 -, which is not a matter of this property
+        upd_dtypes = [t for t in wide if np.dtype(t) != np.float16]
+        dt0, dt1 = ctx.rng.choice(upd_dtypes), ctx.rng.choice(upd_dtypes)
         opt = ctx.rng.choice(OPTS)
         real, red = zero_stock_stages(ctx, d, kind)
         if kind == "Image":
@@ -582,7 +709,7 @@ def oracle(ctx, d):
     # --- O3 positive / negative / absolute / plain --------------------------------------------------------
     for rep in range(ctx.pick(400, 4000)):
         kind = ctx.rng.choice(["ScalarImage", "OpticalImage", "Image"])
-        dtype = ctx.rng.choice(dtypes)
+        dtype = ctx.rng.choice(wide)
         shape = (ctx.rng.randint(1, 7), ctx.rng.randint(1, 7))
         base = rand_image(ctx, d, kind, shape, dtype, dyadic=False)
         probe = rand_image(ctx, d, kind, shape, dtype, dyadic=False)
@@ -679,6 +806,85 @@ def reduction_tie(ctx, d):
                      f"the analysis with signal reduction '{case['reduction']}' deviates by {dev:.3g} from the documented reduction of the "
                      "difference (gray: 0.299 R + 0.587 G + 0.114 B; hsv: value inside the hue / saturation windows)", dict(case, max_dev=dev, observed=vals.tolist(), required=[float(e) for e in exact]))
     ctx.cov["reduction_max_float_error"] = worst
+
+
+def dtype_tie(ctx, d):
+    """every dtype img_as(float) accepts, for baseline and probe (all 144 ordered pairs, same and mixed), scalar / RGB /
+    two-channel images, baseline installed by the constructor or by update(base=...), every diff option: the difference the
+    real analysis returns (no stages) against the model's exact difference of the promoted values (diffD); the baseline
+    itself -> 0; positive + negative = absolute, positive - negative = plain. Inputs are integers over the whole range of
+    the type / booleans / dyadic floats, so the only rounding is that of the promotion and one subtraction (<= 1e-15)."""
+    from fractions import Fraction
+
+    fr = lambda x: (str(x.numerator) if x.denominator == 1 else f"{x.numerator}/{x.denominator}")
+    raw = lambda a: [Fraction(float(v)) if a.dtype.kind == "f" else Fraction(int(v)) for v in a.ravel().tolist()]
+    pairs = [(b, p) for b in ALL_DTYPES for p in ALL_DTYPES]
+    lines, cases = [], []
+    for n in range(ctx.pick(2, 10) * len(pairs)):
+        db, dp = pairs[n % len(pairs)]
+        kind = ctx.rng.choice(["ScalarImage", "ScalarImage", "OpticalImage", "Image"])
+        shape = (ctx.rng.randint(1, 3), ctx.rng.randint(1, 4))
+        full = shape + ({"ScalarImage": (), "OpticalImage": (3,), "Image": (2,)}[kind])
+        r = np.random.RandomState(ctx.rng.randrange(2 ** 31))
+        base, probe = rand_data(r, db, full), rand_data(r, dp, full)
+        via = ctx.rng.choice(["constructor", "constructor", "update"])
+        tb, tp = np.dtype(db), np.dtype(dp)
+        for opt in OPTS:
+            lines.append(f"diffdt {opt} {tb.kind} {8 * tb.itemsize} {tp.kind} {8 * tp.itemsize} {probe.size} " + " ".join(fr(x) for x in raw(probe))
+                         + f" {base.size} " + " ".join(fr(x) for x in raw(base)))
+        cases.append((db, dp, kind, shape, base, probe, via))
+    got = ctx.model(lines)
+    worst = 0.0
+    for i, (db, dp, kind, shape, base, probe, via) in enumerate(cases):
+        mk = {"ScalarImage": lambda a: d.ScalarImage(a.copy(), dimensions=[1.0, 1.0]),
+              "OpticalImage": lambda a: d.OpticalImage(a.copy(), dimensions=[1.0, 1.0], color_space="RGB"),
+              "Image": lambda a: d.Image(a.copy(), scalar=False, dimensions=[1.0, 1.0])}[kind]
+        case = dict(baseline_dtype=db, probe_dtype=dp, kind=kind, shape=list(shape), baseline_installed_by=via,
+                    base=base.tolist(), probe=probe.tolist())
+        ctx.count(("dtype", db, dp, kind, shape, via, lines[4 * i]))
+        out = {}
+        for j, opt in enumerate(OPTS):
+            def build_an():
+                if via == "constructor":
+                    return d.ConcentrationAnalysis(mk(base), **{"diff option": opt})
+                an = d.ConcentrationAnalysis(mk(np.zeros(base.shape)), **{"diff option": opt})
+                an.update(base=mk(base))
+                return an
+
+            an = call(build_an)
+            res = an if isinstance(an, Raised) else call(lambda: an(mk(probe)))
+            if isinstance(res, Raised):
+                ctx.fail(f"C13:call-raises({type(res.exc).__name__},dtype={db}/{dp},kind={kind})", f"analysis raises {res.exc!r}", dict(case, opt=opt))
+                break
+            zero = call(lambda: an(mk(base)))
+            if isinstance(zero, Raised) or np.any(np.asarray(zero.img) != 0):
+                ctx.fail(f"C13:baseline-not-zero(opt={opt},dtype={db})",
+                         f"analysis(baseline) is not identically zero for a {db} baseline (installed by {via})",
+                         dict(case, opt=opt, observed=repr(zero.exc) if isinstance(zero, Raised) else np.asarray(zero.img, dtype=float).ravel().tolist()[:12]))
+            try:
+                exact = [Fraction(t) for t in got[4 * i + j].split()]
+            except (ValueError, ZeroDivisionError):
+                ctx.mark("TIE-BROKEN", {"driver_output": got[4 * i + j][:200], "request": lines[4 * i + j][:200]})
+                break
+            vals = np.asarray(res.img, dtype=np.float64)
+            out[opt] = vals
+            if vals.size != len(exact) or vals.shape != base.shape:
+                ctx.fail(f"C13:dtype(base={db},probe={dp},opt={opt}):shape", "result has another shape than the images", dict(case, opt=opt))
+                break
+            dev = max(abs(Fraction(float(v)) - e) for v, e in zip(vals.ravel().tolist(), exact))
+            if dev > Fraction(1, 10 ** 12):
+                ctx.fail(f"C13:dtype(base={db},probe={dp},opt={opt}):differs-from-promoted-difference",
+                         f"the {opt} difference of a {dp} probe and a {db} baseline deviates by {float(dev):.3g} from the difference of the "
+                         "promoted values (img_as(float) of each image)",
+                         dict(case, opt=opt, max_dev=float(dev), observed=vals.ravel().tolist()[:12], required=[float(e) for e in exact[:12]]))
+            else:
+                worst = max(worst, float(dev))
+        if len(out) == 4:
+            if not np.allclose(out["positive"] + out["negative"], out["absolute"], rtol=0, atol=1e-12):
+                ctx.fail(f"C13:pos+neg!=abs(dtype={db}/{dp})", "positive part + negative part differs from the absolute difference", case)
+            if not np.allclose(out["positive"] - out["negative"], out["plain"], rtol=0, atol=1e-12):
+                ctx.fail(f"C13:pos-neg!=plain(dtype={db}/{dp})", "positive part - negative part differs from the plain difference", case)
+    ctx.cov["dtype_tie_max_float_error"] = worst
 
 
 def promotion_tie(ctx, d):
@@ -790,10 +996,13 @@ def run(ctx):
         ctx.mark("TIE-BROKEN", {"G2": "call order of ConcentrationAnalysis.__call__ not extractable", "error": repr(co.exc)})
         co = {True: dict(order=[], chained=False), False: dict(order=[], chained=False)}
     ctx.write_gen("CallOrder", emit_call_order(co))
-    ctx.cov["generated_tables"] = {"callOrder": {str(k): v for k, v in co.items()}}
+    prom = tabulate_promotion(ctx, d)
+    ctx.write_gen("Promotion", emit_promotion(prom))
+    ctx.cov["generated_tables"] = {"callOrder": {str(k): v for k, v in co.items()}, "promotion": prom}
     ctx.prove("C13")
     correspondence(ctx, d)
     promotion_tie(ctx, d)
+    dtype_tie(ctx, d)
     reduction_tie(ctx, d)
     oracle(ctx, d)
     ctx.cov["rule"] = "distinct = request line (correspondence) / (clause, diff option, dtype, kind, shape, #extra baselines, stage configuration)"
